@@ -916,7 +916,9 @@ func trailingSlashURL(ts string) string {
 }
 
 func redirectTrailingSlash(c *app.RequestContext) {
-	p := bytesconv.B2s(c.Request.URI().Path())
+	// Path() is decoded already and SetRequestURI below percent-decodes its argument (and cuts it at
+	// '?' and '#'): the path is quoted so that it is not decoded a second time
+	p := string(bytesconv.AppendQuotedPath(nil, c.Request.URI().Path()))
 	if prefix := utils.CleanPath(bytesconv.B2s(c.Request.Header.Peek("X-Forwarded-Prefix"))); prefix != "." {
 		p = prefix + "/" + p
 	}
@@ -945,7 +947,8 @@ func redirectRequest(c *app.RequestContext) {
 func redirectFixedPath(c *app.RequestContext, root *node, trailingSlash bool) bool {
 	rPath := bytesconv.B2s(c.Request.URI().Path())
 	if fixedPath, ok := root.findCaseInsensitivePath(utils.CleanPath(rPath), trailingSlash); ok {
-		c.Request.SetRequestURI(bytesconv.B2s(fixedPath))
+		// fixedPath is a decoded path, SetRequestURI expects a request target
+		c.Request.SetRequestURI(string(bytesconv.AppendQuotedPath(nil, fixedPath)))
 		redirectRequest(c)
 		return true
 	}
